@@ -30,6 +30,7 @@ ASSUME /\ Len(LTab.objs) = Len(STab.objs) /\ Len(LTab.rows) = Len(STab.rows)
 LD(d) == INSTANCE LibShape WITH Dev <- {d}
 DRows == [d \in OpenDev |-> LD(d)!Rows]
 DObjs == [d \in OpenDev |-> LD(d)!Objs]
+DProbes == [d \in OpenDev |-> LD(d)!Probes]
 NoCall(o) == [o EXCEPT !.callexp = 0]
 RowLineDevs(k) == {d \in OpenDev : DRows[d][k] # STab.rows[k]}
 CallLineDevs(i) == {d \in OpenDev : DObjs[d][i].callexp # STab.objs[i].callexp}
@@ -39,6 +40,7 @@ CrowdedLines ==
     {<<"row", STab.rows[k].owner, STab.rows[k].name, RowLineDevs(k)>> : k \in {x \in 1..Len(STab.rows) : Cardinality(RowLineDevs(x)) > 1}}
     \cup {<<"call", STab.objs[i].id, CallLineDevs(i)>> : i \in {x \in 1..Len(STab.objs) : Cardinality(CallLineDevs(x)) > 1}}
     \cup {<<"obj", STab.objs[i].id, ObjLineDevs(i)>> : i \in {x \in 1..Len(STab.objs) : Cardinality(ObjLineDevs(x)) > 1}}
+    \cup {<<"probe", S!Probes[i].id, i>> : i \in {x \in 1..Len(S!Probes) : Cardinality({d \in OpenDev : DProbes[d][x] # S!Probes[x]}) > 1}}
     \cup {<<"forin", STab.forins[i].id>> : i \in {x \in 1..Len(STab.forins) : L!ForInExp(LTab, STab.forins[x].id) # S!ForInExp(STab, STab.forins[x].id)}}
 ASSUME CrowdedLines = {} \/ (PrintT(<<"MORE-THAN-ONE-OPEN-FINDING-ON-A-LINE", CrowdedLines>>) /\ FALSE)
 
@@ -47,7 +49,10 @@ NR == Len(STab.rows)
 NF == Len(STab.forins)
 CallIx == SelectSeq([i \in 1..NO |-> i], LAMBDA i : STab.objs[i].call # "")     \* the objects with a distinguishing call
 NC == Len(CallIx)
-N  == NO + NR + NF + NC
+SProbes == S!Probes                 \* behaviours that distinguish the kind of an object (prototypes that are instances)
+LProbes == L!Probes
+NP == Len(SProbes)
+N  == NO + NR + NF + NC + NP
 
 DevOf(es, ed) == IF ed = es THEN <<>> ELSE <<ed>>
 
@@ -69,15 +74,20 @@ LineOf(ts, tl, j, mut) ==
         LET f == ts.forins[j - no - nr] IN
         [k |-> "forin", i |-> 0, id |-> f.id, js |-> f.js, note |-> f.note, mut |-> mut,
          exp |-> S!ForInExp(ts, f.id), dev |-> DevOf(S!ForInExp(ts, f.id), L!ForInExp(tl, f.id))]
-    ELSE
+    ELSE IF j <= no + nr + NF + NC THEN
         LET o == ts.objs[CallIx[j - no - nr - NF]] IN
         [k |-> "call", i |-> 0, id |-> o.id, call |-> o.call, clause |-> o.clause, mut |-> mut,
          exp |-> S!CallExp(o), dev |-> DevOf(S!CallExp(o), L!CallExp(tl.objs[CallIx[j - no - nr - NF]]))]
+    ELSE
+        LET p == SProbes[j - no - nr - NF - NC] IN
+        [k |-> "call", i |-> 0, id |-> p.id, call |-> p.call, clause |-> p.clause, mut |-> mut,
+         exp |-> S!CallExp(p), dev |-> DevOf(S!CallExp(p), L!CallExp(LProbes[j - no - nr - NF - NC]))]
 
 (* the table after the structural mutation of LibShape!MutScript (what the runtime that ran it must show) *)
 STabM == S!MutTab(STab)
 LTabM == L!MutTab(LTab)
 ASSUME S!MutOK(STab)
+ASSUME Len(LProbes) = NP /\ \A i \in 1..NP : SProbes[i].id \in STab.ids /\ LProbes[i].id = SProbes[i].id /\ LProbes[i].call = SProbes[i].call
 NM == Len(STabM.objs) + Len(STabM.rows) + NF          \* objects, own properties, for-in subjects; no calls
 Total == N + NM + 1
 
